@@ -22,10 +22,43 @@ for m in pkgutil.walk_packages(fusion_engine_client.__path__, 'fusion_engine_cli
             raise
         notes.append('module %s not importable (%s): skipped' % (m.name, type(e).__name__))
 
+enum_classes = {}
+
+
+def enum_access_failure(E, name, member, listed):
+    """a member counts only if every public way of reaching it works: attribute, E[name], E(name), E(value), iteration,
+    name and str()"""
+    try:
+        value = int(member.value)
+        canonical = member.name == name                      # False for an alias (second name of a value)
+        if getattr(E, name) is not member:
+            return 'getattr(E, name) is another member'
+        if E[name] is not member:
+            return 'E[name] is another member'
+        if E(name) is not member:
+            return 'E(name) is another member'
+        by_value = E(value)
+        if by_value is not member:
+            return 'E(value) gives %s' % by_value.name
+        if int(member) != value or int(by_value) != value:
+            return 'int(member) differs from its value'
+        if canonical and not any(m is member for m in listed):
+            return 'not listed by iteration'
+        if canonical and member.name != name:
+            return 'member.name differs'
+        str(member); repr(member)
+        if hasattr(member, 'is_unrecognized') and member.is_unrecognized():
+            return 'is_unrecognized() is true for a defined member'
+        return None
+    except Exception as e:
+        return '%s: %s' % (type(e).__name__, str(e)[:80])
+
+
 def snapshot():
     """every table C03 is about, as plain values (copied now, so later mutation by library code shows)"""
     notes_local = []
     enums = {}
+    access_failures = []
     for mod in mods:
         if not mod.__name__.startswith('fusion_engine_client.messages'):
             continue        # protocol enumerations live in the messages package (others: TimeAlignmentMode, WarnOnError)
@@ -38,18 +71,26 @@ def snapshot():
                     key = mod.__name__.split('.')[-1] + '.' + v.__qualname__
                     if key not in enums:
                         rows = []
+                        listed = list(v)                                    # iteration order
+                        if len(v) != len(listed):
+                            access_failures.append([key, '', 0, 'len(E) = %d but iteration yields %d members' % (len(v), len(listed))])
                         for name, member in v.__members__.items():          # includes aliases
-                            if name.startswith('_U'):
-                                continue                                    # dynamically added "unrecognized" members
-                            rows.append([name, int(member.value)])
+                            if name.startswith('_U') or int(member.value) < 0:
+                                continue        # placeholders for unrecognized values (_U...) / names (negative): never on the wire
+                            why = enum_access_failure(v, name, member, listed)
+                            if why:
+                                access_failures.append([key, name, int(member.value), why])     # not a usable member: left out of the table
+                            else:
+                                rows.append([name, int(member.value)])
                         enums[key] = rows
+                        enum_classes[key] = v
                 elif depth < 3:
                     visit(v, depth + 1)
         visit(mod, 0)
 
     MT = defs.MessageType
     classification = [[int(t), bool(defs.is_command(t)), bool(defs.is_response(t))]
-                      for n, t in MT.__members__.items() if not n.startswith('_U')]
+                      for n, t in MT.__members__.items() if not n.startswith('_U') and int(t) >= 0]
 
 
     def all_subclasses(c):
@@ -78,7 +119,7 @@ def snapshot():
     return {'enums': enums, 'classification': classification,
             'command_messages': sorted(int(t) for t in defs.COMMAND_MESSAGES),
             'response_messages': sorted(int(t) for t in defs.RESPONSE_MESSAGES),
-            'classes': [r[:3] for r in classes], 'registry': registry,
+            'classes': [r[:3] for r in classes], 'registry': registry, 'access_failures': access_failures,
             'by_name': sorted([n, int(t)] for n, t in M.message_type_by_name.items()),
             'object_ids': {'COMMAND_MESSAGES': id(defs.COMMAND_MESSAGES), 'RESPONSE_MESSAGES': id(defs.RESPONSE_MESSAGES),
                            'message_type_to_class': id(M.message_type_to_class), 'message_type_by_name': id(M.message_type_by_name)},
@@ -89,7 +130,7 @@ at_import = snapshot()
 
 # ---- use the library in this same interpreter, then look again ------------------------------------------------
 import c03_exercise            # noqa: E402  (same directory)
-exercised = c03_exercise.exercise()
+exercised = c03_exercise.exercise(enum_classes)
 after_use = snapshot()
 static_hits = c03_exercise.static_scan(os.path.dirname(fusion_engine_client.__file__))
 
